@@ -44,6 +44,11 @@ CHECKS = {
    text="Stores from seeded histories with hostile identifiers (quotes, backslashes, control characters, non-BMP) and hostile values (such strings, extreme numbers, booleans, null, nested lists, datetimes), all selector kinds, plus annotations using W3C annotation-level predicates; each annotation is exported under a seeded WebAnnoConfig (IRI prefixes, extra context, namespaces, extra target template) and must parse as one JSON object whose target lists the same resources and offsets (sequence for directional, multiset for composite/multi selectors) and whose body carries every data value with the same content and type. Held on the annotations observed.",
    note="Trusted: serde_json; the id->IRI rule re-stated in harness/src/c17.rs. Not judged: targets that point at annotations without public id, several values for one predicate, key/data selectors nested in complex targets (not generated), non-finite floats (not generated).",
    ref="5/C17"),
+ "C18": dict(
+   technique="runtime oracle monitor: protect_text in all four modes on stores of seeded histories, verdicts of validate_text per annotation and store-wide; differential against the selected characters before and after seeded edits of the text inside the STAM JSON serialisation",
+   text="Stores from seeded histories (all selector kinds, begin- and end-aligned offsets, 1-4 byte text, texts up to 120 codepoints so that the automatic mode takes both branches) are protected in each mode; every text-selecting annotation must validate, also after adding annotations and protecting again (possibly in another mode) and after a save and reload; then 10 (20) substitutions, insertions and deletions placed before, inside, at the edges of and after selections are applied to the serialised text, the store is reloaded and an annotation must be reported invalid exactly when its selected characters changed. Held on the stores and edits observed.",
+   note="Trusted: text_join of the stores (C04/C05) as the definition of the selected characters. Edited serialisations that no longer load (offset beyond the shortened text) are counted and skipped; stand-off text files are not edited, only inline text.",
+   ref="5/C18"),
  "C15": dict(
    technique="runtime monitoring: round-trip differential on stores reached by seeded histories through the STAM CSV files (manifest, annotations table, dataset tables, .txt resources) - canonical observation with values reduced to their text",
    text="Final states of seeded histories (all selector kinds incl. complex selectors with mixed and range-compressed sub-selectors, end-aligned and relative offsets, gaps, ids without ';') are saved as STAM CSV and loaded again; resources and texts, keys, data ids and value text, annotation ids, data references, targets (kinds, referenced items, absolute ranges, selected text) and every reverse lookup must be equal. Held on the stores observed; the two temp-id findings are recorded.",
